@@ -257,6 +257,19 @@ def _tables(tier, seed):
     for pal, ns in parts:
         for n in ns:
             tabs.extend(itertools.product(pal, repeat=n))
+    # tables whose sum (and whose largest value) is close to but not exactly 1, and values close to but not equal to each
+    # other: a tolerance-based shortcut ("already normalised", "equal enough") of any threshold between 1e-9 and 1e-2 shows in
+    # the 7 digits printed (added after seeded change C16c: normalisation skipped when |sum - 1| < 1e-7)
+    near = []
+    for d in ("0.100000009", "0.10000009", "0.1000003", "0.100002", "0.10001", "0.1003", "0.099999991", "0.09999991", "0.0999997", "0.099998",
+              "0.09999", "0.0997"):
+        near.append(("0.7", "0.2", d))
+        near.append((d, "0.2", "0.7"))
+    for a, b in (("0.5", "0.50000009"), ("0.5", "0.49999991"), ("0.3", "0.30000001"), ("0.30000001", "0.3"), ("0.9999991", "1e-12")):
+        near.append((a, b))
+    near.append(("0.99999991",))
+    tabs.extend(near)
+    desc += f" + {len(near)} tables with sums / maxima / pairs within 1e-8..3e-3 of 1 or of each other"
     nrand = 0
     if tier == "thorough":
         rng = cs.rng_for(seed, "C16.supplement")
